@@ -958,3 +958,35 @@ func asBool(o Object) Boolean {
 //@ func cidInit["endbfrange"]
 //@ ensures [C07.range.ordered] result == nil ==> (forall k :: 0 <= k && k < old(len(intp.cmapRanges)) ==> rangeOrdered(intp.cmapMappings.BfRanges[old(len(intp.cmapMappings.BfRanges)) + k]) && (isType(intp.cmapMappings.BfRanges[old(len(intp.cmapMappings.BfRanges)) + k].Dst, String) || isType(intp.cmapMappings.BfRanges[old(len(intp.cmapMappings.BfRanges)) + k].Dst, Array)))
 //@ loop 1 invariant [C07.range.ordered] forall k :: 0 <= k && k < i ==> rangeOrdered(intp.cmapRanges[k]) && (isType(intp.cmapRanges[k].Dst, String) || isType(intp.cmapRanges[k].Dst, Array))
+
+// copy (PLRM 8.2).  "n copy" duplicates the top n operands; "a1 a2 copy"
+// copies the elements of a1 into the beginning of a2 and returns that initial
+// sub-interval of a2 (the SAME array: reference and offset of a2).
+//@ func bCopy
+//@ ensures [C02.copy.underflow] old(depth(intp)) < 1 ==> isPSErr(result, eStackunderflow) && depth(intp) == old(depth(intp))
+//@ ensures [C02.copy.int] old(depth(intp)) >= 1 && isInt(old(top(intp, 0))) && 0 <= asInt(old(top(intp, 0))) && asInt(old(top(intp, 0))) <= Integer(old(depth(intp)) - 1) ==> result == nil && depth(intp) == old(depth(intp)) - 1 + int(asInt(old(top(intp, 0)))) && stackFrame(intp, 1) && (forall i :: 0 <= i && i < int(asInt(old(top(intp, 0)))) ==> intp.Stack[old(depth(intp)) - 1 + i] == old(intp.Stack[depth(intp) - 1 - int(asInt(top(intp, 0))) + i]))
+//@ ensures [C02.copy.int.negative] old(depth(intp)) >= 1 && isInt(old(top(intp, 0))) && asInt(old(top(intp, 0))) < 0 ==> isPSErr(result, eRangecheck) && depth(intp) == old(depth(intp))
+//@ ensures [C02.copy.int.underflow] old(depth(intp)) >= 1 && isInt(old(top(intp, 0))) && asInt(old(top(intp, 0))) > Integer(old(depth(intp)) - 1) ==> isPSErr(result, eStackunderflow) && depth(intp) == old(depth(intp))
+//@ ensures [C02.copy.array] old(depth(intp)) >= 2 && isType(old(top(intp, 1)), Array) && isType(old(top(intp, 0)), Array) && len(old(top(intp, 1)).(Array)) <= len(old(top(intp, 0)).(Array)) && ref(old(top(intp, 0)).(Array)) != old(ref(intp.Stack)) ==> result == nil && depth(intp) == old(depth(intp)) - 1 && stackFrame(intp, 2) && isType(top(intp, 0), Array) && ref(top(intp, 0).(Array)) == ref(old(top(intp, 0)).(Array)) && off(top(intp, 0).(Array)) == off(old(top(intp, 0)).(Array)) && len(top(intp, 0).(Array)) == len(old(top(intp, 1)).(Array)) && (forall j :: 0 <= j && j < len(old(top(intp, 1)).(Array)) ==> old(top(intp, 0)).(Array)[j] == old(top(intp, 1).(Array)[j]))
+//@ ensures [C02.copy.array.range] old(depth(intp)) >= 2 && isType(old(top(intp, 1)), Array) && isType(old(top(intp, 0)), Array) && len(old(top(intp, 1)).(Array)) > len(old(top(intp, 0)).(Array)) ==> isPSErr(result, eRangecheck)
+//@ ensures [C02.copy.array.type] old(depth(intp)) >= 2 && isType(old(top(intp, 1)), Array) && !isType(old(top(intp, 0)), Array) && !isInt(old(top(intp, 0))) ==> isPSErr(result, eTypecheck)
+//@ ensures [C02.copy.string] old(depth(intp)) >= 2 && isType(old(top(intp, 1)), String) && isType(old(top(intp, 0)), String) && len(old(top(intp, 1)).(String)) <= len(old(top(intp, 0)).(String)) ==> result == nil && depth(intp) == old(depth(intp)) - 1 && stackFrame(intp, 2) && isType(top(intp, 0), String) && ref(top(intp, 0).(String)) == ref(old(top(intp, 0)).(String)) && off(top(intp, 0).(String)) == off(old(top(intp, 0)).(String)) && len(top(intp, 0).(String)) == len(old(top(intp, 1)).(String)) && (forall j :: 0 <= j && j < len(old(top(intp, 1)).(String)) ==> old(top(intp, 0)).(String)[j] == old(top(intp, 1).(String)[j]))
+//@ ensures [C02.copy.string.range] old(depth(intp)) >= 2 && isType(old(top(intp, 1)), String) && isType(old(top(intp, 0)), String) && len(old(top(intp, 1)).(String)) > len(old(top(intp, 0)).(String)) ==> isPSErr(result, eRangecheck)
+
+// array / string (PLRM 8.2 and appendix B limits): a fresh composite object of
+// the requested length, elements null / zero; negative sizes are rangecheck,
+// sizes above the implementation limit (65536) limitcheck, and nothing is
+// allocated in those cases.
+//@ func bArray
+//@ ensures [C02.array.underflow] old(depth(intp)) < 1 ==> isPSErr(result, eStackunderflow) && depth(intp) == old(depth(intp))
+//@ ensures [C02.array.type] old(depth(intp)) >= 1 && !isInt(old(top(intp, 0))) ==> isPSErr(result, eTypecheck) && depth(intp) == old(depth(intp))
+//@ ensures [C02.array.negative] old(depth(intp)) >= 1 && isInt(old(top(intp, 0))) && asInt(old(top(intp, 0))) < 0 ==> isPSErr(result, eRangecheck) && depth(intp) == old(depth(intp))
+//@ ensures [C02.array.limit] old(depth(intp)) >= 1 && isInt(old(top(intp, 0))) && asInt(old(top(intp, 0))) > 65536 ==> isPSErr(result, eLimitcheck) && depth(intp) == old(depth(intp))
+//@ ensures [C02.array] old(depth(intp)) >= 1 && isInt(old(top(intp, 0))) && 0 <= asInt(old(top(intp, 0))) && asInt(old(top(intp, 0))) <= 65536 ==> result == nil && depth(intp) == old(depth(intp)) && stackFrame(intp, 1) && isType(top(intp, 0), Array) && len(top(intp, 0).(Array)) == int(asInt(old(top(intp, 0)))) && (len(top(intp, 0).(Array)) > 0 ==> fresh(top(intp, 0).(Array))) && (forall j :: 0 <= j && j < len(top(intp, 0).(Array)) ==> top(intp, 0).(Array)[j] == nil)
+
+//@ func bString
+//@ ensures [C02.string.underflow] old(depth(intp)) < 1 ==> isPSErr(result, eStackunderflow) && depth(intp) == old(depth(intp))
+//@ ensures [C02.string.type] old(depth(intp)) >= 1 && !isInt(old(top(intp, 0))) ==> isPSErr(result, eTypecheck) && depth(intp) == old(depth(intp))
+//@ ensures [C02.string.negative] old(depth(intp)) >= 1 && isInt(old(top(intp, 0))) && asInt(old(top(intp, 0))) < 0 ==> isPSErr(result, eRangecheck) && depth(intp) == old(depth(intp))
+//@ ensures [C02.string.limit] old(depth(intp)) >= 1 && isInt(old(top(intp, 0))) && asInt(old(top(intp, 0))) > 65536 ==> isPSErr(result, eLimitcheck) && depth(intp) == old(depth(intp))
+//@ ensures [C02.string] old(depth(intp)) >= 1 && isInt(old(top(intp, 0))) && 0 <= asInt(old(top(intp, 0))) && asInt(old(top(intp, 0))) <= 65536 ==> result == nil && depth(intp) == old(depth(intp)) && stackFrame(intp, 1) && isType(top(intp, 0), String) && len(top(intp, 0).(String)) == int(asInt(old(top(intp, 0)))) && (forall j :: 0 <= j && j < len(top(intp, 0).(String)) ==> top(intp, 0).(String)[j] == 0)
